@@ -70,7 +70,10 @@ def recipe_text(r):
     # the serving phrase in one of its documented forms and letter cases (chosen by the recipe's own data: stable across rewrites)
     phrase = SERVING_PHRASES[(len(r["title"]) + len(r["file"]) + (r["servings"] or 0)) % len(SERVING_PHRASES)]
     t = r["title"] + (" %s %d" % (phrase, r["servings"]) if r["servings"] else "")
-    body = "# %s\n\nMix {2} things.\n\n    1 x\n    200 g y, chopped\n\n" % t
+    # every kind of scalable number: prose, quantities, a number in the name of an ingredient without quantity, in a step, in the name of
+    # a sub recipe that is used twice (shown in its title and in both references)
+    body = ("# %s\n\nMix {2} things.\n\n    1 x\n    200 g y, chopped\n    eggs {4 large or 6 small}, {rest 10 min then crack}\n"
+            "    tray {3} = line(paper)\n    fill(1/2 of tray {3}, rest of the tray {3})\n\n" % t)
     body += "\n\n".join(link_md(lab, url) for lab, url, _ in r["links"])
     return body + "\n"
 
